@@ -489,7 +489,7 @@ def gen_smap(rng):
             axis = o if rng.random() < 0.6 else o - nd_out
         outs.append(dict(expr=e, axis=axis, ndim=nd_out))
     # how the flat argument leaves are grouped into positional arguments (pytree-valued in_axes)
-    group = rng.choice(["flat", "flat", "nested"])
+    group = rng.choice(["flat", "flat", "nested", "dict"])
     return dict(op="smap", args=args, outs=outs, len=L, group=group, int_axes=rng.random() < 0.15, jit=rng.random() < 0.3)
 
 
@@ -514,9 +514,12 @@ def build_smap_call(case):
     axes = [a["axis"] for a in case["args"]]
     if case["group"] == "nested" and len(arrs) >= 2:
         # first positional argument: a tuple of the first two leaves (pytree-valued in_axes entry); the rest positional.
-        # (dict-valued in_axes are rejected by smap itself: its jit needs hashable static arguments — outside the alphabet)
         pos = [(arrs[0], arrs[1])] + arrs[2:]
         in_axes = tuple([(axes[0], axes[1])] + axes[2:])
+    elif case["group"] == "dict" and len(arrs) >= 2:
+        # dict-valued in_axes entry (jax.vmap and lmap accept it; smap must too)
+        pos = [{"p": arrs[0], "q": arrs[1]}] + arrs[2:]
+        in_axes = tuple([{"p": axes[0], "q": axes[1]}] + axes[2:])
     else:
         pos = list(arrs)
         in_axes = tuple(axes)
